@@ -187,6 +187,15 @@ def main(pid, tier="quick", seed=0, replay=None):
         v.violation("unproved", {"what": "build failed: " + build_error.what, "log": build_error.log[-3000:]}, no_input=True)
     if cross.get("checked", 0) and cross.get("agree") != cross.get("checked"):
         v.violation("unproved", {"what": "extracted runner and vm_compute disagree", "detail": cross}, no_input=True)
+    forbidden = lib.grep_forbidden()
+    if forbidden:
+        v.violation("unproved", {"what": "the development contains Admitted/admit/Axiom/Parameter/... declarations", "where": forbidden[:20]}, no_input=True)
+    chk = None
+    if tier == "thorough" and not proof.get("error"):
+        ok_chk, axioms_txt = lib.coqchk(pid)
+        chk = {"coqchk_ok": ok_chk, "axioms_reported_by_coqchk": axioms_txt[:2000]}
+        if not ok_chk:
+            v.violation("unproved", {"what": "coqchk rejects the compiled development", "log": axioms_txt}, no_input=True)
     allowed = set(getattr(mod, "ALLOWED_AXIOMS", []))
     bad_ax = [a for a in proof.get("axioms", []) if a not in allowed]
     if bad_ax:
@@ -208,6 +217,8 @@ def main(pid, tier="quick", seed=0, replay=None):
                            "oracle_failures": sum(1 for r in results if r["oracle"] is not None),
                            "model_requests": len(req_lines)},
         "vm_compute_crosscheck": cross,
+        "forbidden_declarations_found": len(forbidden),
+        "coqchk": chk,
         "input_distribution": dict(hist.most_common(40)),
         "exhaustive": False,
     }
